@@ -367,7 +367,7 @@ fn descendants(v: &Value, depth: usize, out: &mut Vec<Value>) {
 /// Greedy delta-debugging over the JSON form of a case: drop array elements,
 /// shrink numbers, clear flags, hoist sub-objects. A candidate is kept only if
 /// the scenario still reports a violation of the same rule.
-pub fn shrink(s: &dyn Scenario, case: &Value, rule: &str, budget: usize) -> (Value, Violation, usize) {
+pub fn shrink(s: &dyn Scenario, case: &Value, rule: &str, budget: usize, keep: &dyn Fn(&Violation) -> bool) -> (Value, Violation, usize) {
   let mut best = case.clone();
   let mut best_v = match run_guarded(s, &best) {
     Ok(Outcome { violation: Some(v), .. }) => v,
@@ -384,7 +384,7 @@ pub fn shrink(s: &dyn Scenario, case: &Value, rule: &str, budget: usize) -> (Val
     }
     if let Ok(o) = run_guarded(s, &cand) {
       if let Some(v) = o.violation {
-        if v.rule == rule {
+        if v.rule == rule && keep(&v) {
           *best = o.resolved.unwrap_or(cand);
           *best_v = v;
           return true;
@@ -638,7 +638,11 @@ pub fn run_check(pc: &PropertyCheck, tier: Tier, verif_dir: &str) -> i32 {
       }
       shrunk += 1;
       let budget = if tier == Tier::Quick { 250 } else { 400 };
-      let (min_case, v, used) = shrink(s.as_ref(), &r.case, &r.violation.rule, budget);
+      // a candidate must stay on the same side of the known/unknown line, so that
+      // minimisation can never turn a new violation into a listed one
+      let orig_known = match_known(&known, pc.id, s.name(), &r.violation).is_some();
+      let keep = |v: &Violation| match_known(&known, pc.id, s.name(), v).is_some() == orig_known;
+      let (min_case, v, used) = shrink(s.as_ref(), &r.case, &r.violation.rule, budget, &keep);
       let o = run_guarded(s.as_ref(), &min_case).ok();
       let th = o.as_ref().map_or(0, |o| o.trace_hash);
       if let Some(k) = match_known(&known, pc.id, s.name(), &v) {
